@@ -15,8 +15,9 @@ META = dict(
              'taurex.constants; temperature and molecular-weight profiles observed on the model'],
     modelled=['SimplePressureProfile.compute_pressure_profile, BasePlanet.calculate_scale_properties / '
               'gravity_at_height, SimpleForwardModel slicing into altitude/scale-height/gravity profiles and '
-              'densityProfile; ArrayPressureProfile level reconstruction and generate_profile_dict are checked by '
-              'the property oracle only (lengths, ordering, bracketing)'],
+              'densityProfile; ArrayPressureProfile level reconstruction (Model_C11a: exact rationals in log10 space; the log10 '
+              'and the power of ten at either end are taken by the harness); generate_profile_dict is checked by the '
+              'property oracle only (lengths, ordering, bracketing)'],
     assumptions=['pmin < pmax, positive temperatures and molecular weights',
                  'tolerance 1e-9 relative (80-bit interval enclosures)'],
 )
@@ -205,12 +206,13 @@ def run(ctx):
 
 def array_pressure(ctx, rng):
     from taurex.data.profiles.pressure.arraypressure import ArrayPressureProfile
+    a_exprs, a_meta = [], []
     for i in range(ctx.n(30, 200)):
         n = rng.choice([2, 3, 5, 9, 20])
-        # adjacent spacings within a factor 2.5 of each other: for wilder grids the centred-difference level
+        # adjacent spacings within a factor 2.8 of each other (the theorem's premise is a factor 3): for wilder grids the centred-difference level
         # reconstruction of ArrayPressureProfile is not monotone and the property's premise (decreasing levels)
         # does not apply
-        P = 10 ** (rng.uniform(3, 7) - np.cumsum([rng.uniform(0.3, 0.7) for _ in range(n)]))
+        P = 10 ** (rng.uniform(3, 7) - np.cumsum([rng.uniform(0.25, 0.7) for _ in range(n)]))
         # a table given top-down with reverse=True is the same profile
         rev = rng.random() < 0.4
         ap = ArrayPressureProfile(P[::-1].copy(), reverse=True) if rev else ArrayPressureProfile(P)
@@ -222,12 +224,31 @@ def array_pressure(ctx, rng):
         # pressure holds for regular spacing only and is not demanded)
         ok = (len(lv) == n + 1 and np.all(np.diff(lv) < 0) and lv[0] > P[0] and lv[-1] < P[-1]
               and np.array_equal(ap.profile, P) and ap.nLayers == n)
+        # under the premise of C11_array_levels_bracket (strictly decreasing, upper log-spacing < 3 x lower) every layer
+        # pressure lies strictly between its two levels; the premise is evaluated on the instance
+        lp = np.log10(P)
+        d = -np.diff(lp)
+        premise = bool(np.all(d > 0) and (len(d) < 2 or np.all(d[1:] < 3 * d[:-1] * (1 - 1e-9))))
+        ctx.count('array_pressure:premise holds' if premise else 'array_pressure:premise fails')
+        if ok and premise and len(lv) == n + 1 and not (np.all(lv[1:] < P) and np.all(P < lv[:-1])):
+            ok = False
         if ok:
             ctx.validated()
         else:
             ctx.violation('structure:array-pressure', 'array pressure profile: levels %r are not n+1 strictly decreasing values '
-                          'around the %d layer pressures' % (lv, n), replay=dict(P=P))
+                          'around the %d layer pressures %r' % (lv, n, P), replay=dict(P=P))
         ctx.count('array_pressure')
+        if len(lv) == n + 1 and np.all(lv > 0):
+            a_exprs.append('run_array_levels %s' % C.qlist(lp.tolist()))
+            a_meta.append(dict(P=P, loglv=np.log10(lv)))
+    for mt, r in zip(a_meta, C.run_cases('C11_arr', C.HEADER_Q + 'From TV Require Import Model_C11a Exec_C11a.\n', a_exprs, shard=40)):
+        mv = np.array([float(C.q_out(x)) for x in r])
+        ctx.case(('array-model', len(mt['P']), float(mt['P'][0])), nontrivial=len(mt['P']) >= 3)
+        if mv.shape != mt['loglv'].shape or not np.allclose(mv, mt['loglv'], rtol=0, atol=1e-11):
+            ctx.violation('correspondence:array-pressure', 'array pressure profile: log10 of the levels %r, model %r'
+                          % (mt['loglv'], mv), replay=dict(P=mt['P']), no_input=True)
+        else:
+            ctx.validated()
 
 
 def replay(ctx, obj):
